@@ -199,7 +199,8 @@ CHECKS["C17"] = dict(
           "imputer): a failing explain_one leaves estimates and seen unchanged; the error is a callback's error; any invariant of the "
           "estimates (e.g. the C01 identity) survives caught failures over a whole stream. Tied to pfi.py / incremental.py by enumerating "
           "every fault position (and random pairs) of small configurations on the real classes and comparing post-state, error and call "
-          "log with the model; the identity is re-checked after resuming." + BRIDGE),
+          "log with the model; the identity is re-checked after resuming. BatchSage / IntervalSage are covered by the same enumeration on the real "
+          "classes only (every callback position of short streams: exception propagates, importance values unchanged, stream resumes); there is no Lean theorem about their attribute after a failure." + BRIDGE),
     design_ref="DESIGN.md section 6, C17", note=TRUST_H + " BatchSage/IntervalSage are not modelled with faults in Lean; for them every callback position of short streams is enumerated on the real classes (importance values unchanged, the exception propagates, the stream resumes).",
     technique="Lean 4 theorems over state-keeping error monad + exhaustive fault enumeration on the real classes",
 )
